@@ -6,7 +6,8 @@ CONSTANTS
   Seat <- Seat3
   MaxRounds = 1
   MaxReqs = 1
-  MaxDeliver = 1
+  MaxDkgDeliver = 1
+  MaxRelayDeliver = 1
   MaxBad = 0
   MaxStops = 0
   MaxViewMis = 1
